@@ -23,7 +23,8 @@ RULE = (
     "rebuild(as_of>=p) from snapshot+later events == snapshot-free result. (d) concurrent histories: the same classes run by "
     "2-4 worker threads interleaved at SQL-statement granularity (random / PCT, a concurrent cancel thread for the cancel "
     "classes), and CancelStage x CompleteStage / CompleteTask handler pairs under every schedule with <= 2 preemptions "
-    "(sampled); oracle (a) on the drained result. "
+    "(sampled); oracle (a) on the drained result. (e) long logs: a retry loop of 270-330 iterations (> 1000 events), "
+    "oracles (a)-(c) at the first / last positions, around position 1000 and at 40 random positions. "
     "Non-trivial = run with >= 5 events; distinct = "
     "(outcome class, workflow status, multiset of stage statuses)."
 )
@@ -58,6 +59,10 @@ def _spec(cls: str, rng: random.Random) -> dict:
         return rng.choice([specs.terminal_mid(), specs.racing_failure(), specs.failed_continue(), specs.first_of_failing(rng), specs.random_dag(rng, max_stages=5)])
     if cls == "loop":
         return rng.choice([specs.jump_loop(rng.randint(1, 2), 3), specs.self_loop(2), specs.jump_side_branch(1), specs.forward_jump(), specs.skip_in_later_iteration(rng.randint(1, 2)), specs.skip_in_later_iteration(1)])
+    if cls == "long_log":
+        # a retry loop long enough for the workflow's log to pass 1000 events (a page of any bounded query)
+        n = rng.randint(270, 330)
+        return specs.jump_limit(max_jumps=n + 50, level="wf", shape="self", times=n)
     if cls == "suspend":
         return specs.suspend_wf()
     if cls == "synthetic":
@@ -72,6 +77,7 @@ def _spec(cls: str, rng: random.Random) -> dict:
 def gen_cases(tier: str, seed: int) -> list[dict]:
     n = 160 if tier == "quick" else 1500
     cases = [{"i": i, "cls": CLASSES[i % len(CLASSES)], "seed": seed} for i in range(n)]
+    cases += [{"i": 100000 + i, "cls": "long_log", "seed": seed} for i in range(2 if tier == "quick" else 8)]
     for i in range(60 if tier == "quick" else 700):
         cases.append({"kind": "race", "i": i, "cls": CLASSES[i % len(CLASSES)], "seed": seed})
     for variant in range(3):
@@ -298,7 +304,7 @@ def run_case(case: dict) -> dict:
             w.wf_id = first
 
     order = rng.choice(["fifo", "random", "random"])
-    run, w = delivery_run(spec, seed=rng.randrange(1 << 30), order=order, noack_p=rng.choice([0.0, 0.2]), events=True, injections=inj, keep_world=True, pre_hook=pre, max_steps=1000)
+    run, w = delivery_run(spec, seed=rng.randrange(1 << 30), order=order, noack_p=rng.choice([0.0, 0.2]) if cls != "long_log" else 0.0, events=True, injections=inj, keep_world=True, pre_hook=pre, max_steps=1000 if cls != "long_log" else 9000)
     obs: Counter = Counter({"evaluations": 1})
     out: list[dict] = []
     keys: set = set()
@@ -355,6 +361,10 @@ def run_case(case: dict) -> dict:
                 sample = {"class": cls, "spec": spec["name"], "events": [f"{e.sequence}:{e.event_type.value}" for e in events][:40], "store_status": wf.status.name, "replay_status": r_status}
             # (b) metamorphic prefix oracle on a copy of the database
             seqs = [e.sequence for e in events]
+            if len(seqs) > 250:
+                # long logs: a sample of positions (always the first, the last, and the neighbourhood of position 1000)
+                keep = set(rng.sample(range(len(seqs)), 40)) | {0, 1, len(seqs) - 2, len(seqs) - 1} | {i for i in range(996, 1004) if i < len(seqs)}
+                seqs = [q for i, q in enumerate(seqs) if i in keep]
             copy_path = os.path.join(env.scratch_dir(), f"c12copy-{os.getpid()}.db")
             shutil.copyfile(w.path, copy_path)
             raw = hooks.raw_connect(copy_path, isolation_level=None)
